@@ -15,7 +15,7 @@ import (
 func init() { register("C16", checkC16) }
 
 func checkC16(c *core.Ctx, r *core.Report) {
-	r.Explanation = "C16 (all ingest protocols preserve event content and time), timestamp flow only: " +
+	r.Explanation = "[NUMBERS — a handler that decodes a document into map[string]interface{} and encodes it again for storage decodes with UseNumber] [POOL — an event object taken from writer.plePool carries no field value of its previous use when it is handed out: reset-on-get (Reset after Get and every other field assigned unconditionally) or reset-on-put (every Put preceded by Reset)] C16 (all ingest protocols preserve event content and time), timestamp flow only: " +
 		"(1) fallback discipline — every ParsedLogEvent.SetTimestamp in a function that extracts a timestamp from the document either stores the extracted value where it is known non-zero, or stores something else only where the extracted value (or the event's current timestamp) is known to be zero: a time the event already carries is never overwritten by a fallback; " +
 		"(2) the OTLP log handler sets the event time from the record's time_unix_nano; " +
 		"(3) the timestamp argument of every metrics.EncodeDatapoint call depends on the payload and on no current-time source; " +
@@ -24,6 +24,9 @@ func checkC16(c *core.Ctx, r *core.Report) {
 		"(7) OWN — no byte slice that may still share a fasthttp request body buffer (followed through re-slicing, jsonparser callbacks, parameters, returns, fields and containers, and cut at every copying operation) is stored into the metrics tags tree, which outlives the request; " +
 		"(6) the JSON-number branch of ExtractTimeStamp gives up (returns 0, which every caller replaces by the arrival time) only after a float-capable parser has been tried on the raw value: fractional and exponent spellings of an epoch are valid JSON numbers."
 	r.NotCovered = "field/attribute completeness, unit detection (seconds/millis/nanos) of a timestamp, string timestamp formats, identifier encodings, the Splunk HEC `time` field (ignored by the handler: needs protocol knowledge, not code shape)"
+
+	checkPooledEvent(c, r)
+	checkGenericDocumentNumbers(c, r)
 
 	setTs := c.Obj(pkgWriter, "ParsedLogEvent.SetTimestamp")
 	getTs := c.Obj(pkgWriter, "ParsedLogEvent.GetTimestamp")
